@@ -224,7 +224,7 @@ def main():
     engine.phase(ck, 'unquoted words', shard_product, shards, alphabet=len(WORDCLS))
     engine.phase(ck, 'literals <= 3 next to comments', shard_comments, [(a, dl) for a in CLASSES])
     # substitution forms as single symbols, mixed with the characters they interact with
-    ENVSYM = [b'${V}', b'${V:-d}', b'${U:-d}', b'${U}', b'${V:-}', b'${V:-a b}', b'${U:-${V}}', b'a', b'\\', b'$', b'{', b'}', b' ', b'"', b"'"]
+    ENVSYM = [b'${V}', b'${V:-d}', b'${U:-d}', b'${U}', b'${V:-}', b'${V:-a b}', b'${U:-${V}}', b'${U:-h:80}', b'${V:-h:1}', b'${U:-a:-b}', b'a', b'\\', b'$', b'{', b'}', b' ', b'"', b"'"]
     shards = []
     for t in ('dq', 'sq', 'uq', 'dql', 'uql', 'uq2', 'dq2'):
         for a in ENVSYM:
